@@ -74,5 +74,10 @@ func MergeLeftToRight(t Tuple, ts ...Tuple) Tuple {
 			t = t.With(name, value)
 		}
 	}
+	// GenericTuple.With never specialises; (@: 0) +> (@char: 97) must be the
+	// same value as (@: 0, @char: 97).
+	if g, ok := t.(*GenericTuple); ok {
+		return g.Canonical()
+	}
 	return t
 }
